@@ -525,6 +525,7 @@ namespace chaiscript {
         if (verif_ignore_lookup_hints().load(std::memory_order_relaxed)) {
           loc = 0;
         }
+        ::chaiscript_verif::hint_point(&t_loc); // the hint has been read
 #endif
 
         if ((loc & static_cast<uint_fast32_t>(Loc::is_local)) != 0u) {
@@ -546,6 +547,10 @@ namespace chaiscript {
           loc = 0;
         }
 
+#ifdef CHAISCRIPT_VERIF
+        ::chaiscript_verif::hint_point(&t_loc); // between judging the hint and acting on the verdict
+#endif
+
         if (loc == 0) {
           auto &stack = get_stack_data(t_holder);
 
@@ -563,6 +568,10 @@ namespace chaiscript {
 
           t_loc = static_cast<uint_fast32_t>(Loc::located);
         }
+
+#ifdef CHAISCRIPT_VERIF
+        ::chaiscript_verif::hint_point(&t_loc); // a new hint may have been stored
+#endif
 
         // Is the value we are looking for a global or function?
         chaiscript::detail::threading::shared_lock<chaiscript::detail::threading::shared_mutex> l(m_mutex);
